@@ -1033,6 +1033,7 @@ var ringWindows = map[int]bool{
 	81: true, 82: true, 83: true, 91: true, 92: true, 93: true, // cursor loaded, before / just after Lock
 	34: true, 36: true, 75: true, 77: true, 84: true, 86: true, 94: true, 96: true, // isDone tested, before Wait
 	35: true, 76: true, 85: true, 95: true, // about to return end-of-stream inside the lock region
+	39: true, 131: true, 132: true, 133: true, // room found, before the last isDone test / done seen, before the second look at the producer cursor (F9)
 	42: true, 43: true, 44: true, 50: true, 51: true, 52: true, // cursor store .. Broadcast
 	64: true, 65: true, 66: true, 69: true, 70: true, 71: true, 102: true, 103: true, 104: true,
 	11: true, 12: true, 13: true, 14: true, 15: true, 16: true, // inside Close
